@@ -4,6 +4,7 @@ import (
 	"fmt"
 	"math"
 	"strings"
+	"unicode/utf8"
 
 	pr "github.com/benoitkugler/webrender/css/properties"
 	"github.com/benoitkugler/webrender/utils"
@@ -242,9 +243,10 @@ func (c CounterStyle) renderValue(counterValue int, counter *CounterStyleDescrip
 
 	// Step 4
 	pad := counter.Pad
-	padDifference := pad.Int - len(initial)
+	// the pad length counts characters, not bytes
+	padDifference := pad.Int - utf8.RuneCountInString(initial)
 	if isNegative && useNegative {
-		padDifference -= len(negativePrefix) + len(negativeSuffix)
+		padDifference -= utf8.RuneCountInString(negativePrefix) + utf8.RuneCountInString(negativeSuffix)
 	}
 	if padDifference > maxPadLength {
 		// Counter Styles 3 allows limiting the pad length to a reasonable maximum
